@@ -30,6 +30,12 @@ typedef std::vector<U> V;
 // arguments in registers and the rest on the stack, so surplus zero arguments are harmless.
 typedef U (*F8)(U, U, U, U, U, U, U, U);
 
+// The kernel is entered through a trampoline that leaves registers the ABI does not define at function entry in a
+// hostile state: CF set or clear (alternating), rax/r10/r11 junk.  Arguments (registers and stack) are untouched.
+extern "C" { void *c14_target; U c14_thunk_stc(U, U, U, U, U, U, U, U); U c14_thunk_clc(U, U, U, U, U, U, U, U); }
+asm(".text\n.globl c14_thunk_stc\n.type c14_thunk_stc,@function\nc14_thunk_stc:\n movabs $0xDEADBEEFCAFEF00D,%rax\n mov %rax,%r10\n mov %rax,%r11\n stc\n jmp *c14_target(%rip)\n"
+    ".globl c14_thunk_clc\n.type c14_thunk_clc,@function\nc14_thunk_clc:\n movabs $0x0123456789ABCDEF,%rax\n mov %rax,%r10\n mov %rax,%r11\n clc\n jmp *c14_target(%rip)\n");
+
 // ------------------------------------------------------------------ rng
 static inline U splitmix(U &s) { U z = (s += 0x9E3779B97F4A7C15ull); z = (z ^ (z >> 30)) * 0xBF58476D1CE4E5B9ull;
   z = (z ^ (z >> 27)) * 0x94D049BB133111EBull; return z ^ (z >> 31); }
@@ -142,12 +148,15 @@ static void snapshot(const Opd *o, const Placed &pl, const std::vector<std::pair
 
 // ------------------------------------------------------------------ crash / SIGILL handling
 static volatile sig_atomic_t g_in_kernel = 0;
+static int g_thunk = 1;
+static unsigned g_watchdog = 120;      // seconds; env C14_WATCHDOG overrides
 static std::string g_label, g_cur_entry;
-static char g_cur_case[1 << 16];             // text form of the case being run (for crash reports)
+static char g_cur_case[1 << 20];             // text form of the case being run (for crash reports)
 static void on_signal(int sig) {
   // async-signal-safe enough: we only write() prepared buffers and _exit.
   char b[256]; int n;
   if (sig == SIGILL && g_in_kernel) { n = snprintf(b, sizeof b, "{\"label\":\"%s\",\"sigill\":\"%s\"}\n", g_label.c_str(), g_cur_entry.c_str()); if (write(1, b, n)) {} _exit(3); }
+  if (sig == SIGALRM && !g_in_kernel) { n = snprintf(b, sizeof b, "{\"label\":\"%s\",\"fault\":\"watchdog outside kernel\"}\n", g_label.c_str()); if (write(1, b, n)) {} _exit(2); }
   n = snprintf(b, sizeof b, "{\"label\":\"%s\",\"crash\":{\"signal\":%d,\"in_kernel\":%d,\"entry\":\"%s\",\"case\":\"", g_label.c_str(), sig, (int)g_in_kernel, g_cur_entry.c_str());
   if (write(1, b, n)) {} if (write(1, g_cur_case, strlen(g_cur_case))) {} if (write(1, "\"}}\n", 4)) {}
   _exit(g_in_kernel ? 1 : 2);
@@ -191,8 +200,10 @@ struct Outcome { bool ok = true; std::string which, detail; V exp_img, got_img; 
 static U mask_ret(const Op &op, U r) { return op.ret == 0 ? 0 : op.ret == 2 ? (U)(uint32_t)r : r; }
 static U run_fn(const Op &op, const Case &c, const Opd *o, void *fn, bool kernel, V &img, std::vector<std::pair<long, long>> &pos) {
   Placed pl; long il; place(c, o, pl, pos, il);
+  F8 entry = (F8)fn;
+  if (kernel && g_thunk) { c14_target = fn; entry = (c.n + c.al[2] + c.sc[0]) & 1 ? c14_thunk_stc : c14_thunk_clc; }
   if (kernel) g_in_kernel = 1;
-  U r = op.call((F8)fn, c, pl.p);
+  U r = op.call(entry, c, pl.p);
   g_in_kernel = 0;
   snapshot(o, pl, pos, img);
   return mask_ret(op, r);
@@ -203,6 +214,7 @@ static Outcome run_case(const Op &op, const Case &c, void *kfn, const std::vecto
   Outcome oc; Opd o[NOPD]; op.layout(c, o);
   std::string ct = case_text(c); if (ct.size() < sizeof g_cur_case) strcpy(g_cur_case, ct.c_str()); else g_cur_case[0] = 0;
   V kimg, rimg; std::vector<std::pair<long, long>> pos, pos2;
+  static unsigned tick = 0; if ((tick++ & 255) == 0) alarm(g_watchdog);      // watchdog: a kernel that never returns is reported (signal 14 inside the kernel)
   U kret = run_fn(op, c, o, kfn, true, kimg, pos);
   oc.pos = pos; oc.got_img = kimg; oc.got_ret = kret;
   if (op.check) { std::string e = op.check(c, kimg, kret, pos); if (!e.empty()) { oc.ok = false; oc.which = "own-predicate"; oc.detail = e; oc.exp_img = kimg; oc.exp_ret = kret; return oc; } }
@@ -250,10 +262,12 @@ int main(int argc, char **argv) {
   std::map<std::string, std::string> a;
   for (int i = 1; i + 1 < argc; i += 2) a[argv[i]] = argv[i + 1];
   if (a.count("--list-ops")) { std::vector<Op> ops = build_ops(64, 64); printf("["); for (size_t i = 0; i < ops.size(); i++) printf("%s{\"entry\":\"%s\",\"sym\":\"%s\",\"generic\":\"%s\",\"refmpn\":\"%s\",\"own\":%s,\"predicate\":%s,\"nmin\":%ld,\"domain\":\"%s\"}", i ? ",\n" : "", ops[i].name.c_str(), ops[i].sym.c_str(), ops[i].generic.c_str(), ops[i].refmpn.c_str(), ops[i].own ? "true" : "false", ops[i].check ? "true" : "false", ops[i].nmin, jesc(ops[i].domain).c_str()); printf("]\n"); return 0; }
+  if (getenv("C14_NOTHUNK")) g_thunk = 0;
+  if (getenv("C14_WATCHDOG")) g_watchdog = atoi(getenv("C14_WATCHDOG"));
   g_label = a["--label"]; U seed = strtoull(a["--seed"].c_str(), nullptr, 0); bool thorough = a["--tier"] == "thorough";
   long sqrmax = a.count("--sqrmax") ? atol(a["--sqrmax"].c_str()) : 24, sqrgen = a.count("--sqrgeneric") ? atol(a["--sqrgeneric"].c_str()) : 24;
   double scale = a.count("--scale") ? atof(a["--scale"].c_str()) : 1.0;
-  struct sigaction sa; memset(&sa, 0, sizeof sa); sa.sa_handler = on_signal; for (int s : {SIGILL, SIGSEGV, SIGBUS, SIGFPE, SIGABRT}) sigaction(s, &sa, nullptr);
+  struct sigaction sa; memset(&sa, 0, sizeof sa); sa.sa_handler = on_signal; for (int s : {SIGILL, SIGSEGV, SIGBUS, SIGFPE, SIGABRT, SIGALRM}) sigaction(s, &sa, nullptr);
   void *hk = dlopen(a["--kernel"].c_str(), RTLD_NOW | RTLD_LOCAL); if (!hk) { printf("{\"label\":\"%s\",\"fault\":\"dlopen kernel: %s\"}\n", g_label.c_str(), jesc(dlerror()).c_str()); return 2; }
   void *hr = dlopen(a["--ref"].c_str(), RTLD_NOW | RTLD_LOCAL); if (!hr) { printf("{\"label\":\"%s\",\"fault\":\"dlopen ref: %s\"}\n", g_label.c_str(), jesc(dlerror()).c_str()); return 2; }
   void *hs = a.count("--kara") && !a["--kara"].empty() ? dlopen(a["--kara"].c_str(), RTLD_LAZY | RTLD_LOCAL) : nullptr;   // lazy: mul_n.c drags in unresolved toom/fft references that are never called
@@ -277,10 +291,10 @@ int main(int argc, char **argv) {
     if (op.own) refs.push_back({"own", op.own});
     U key = fnv(g_label + ":" + op.name);
     std::map<std::string, long> known_hits; long calls = 0, largest = 0; std::unordered_set<U> distinct;
-    std::map<std::string, long> lab; std::vector<std::string> samples; Outcome bad; Case badc; bool failed = false;
+    std::map<std::string, long> lab; std::vector<std::string> samples; std::string largest_case; Outcome bad; Case badc; bool failed = false;
     auto &kn = known[op.name];
     auto tally = [&](const Case &c) {
-      calls++; if (c.n >= 2) distinct.insert(case_hash(c)); if (c.n > largest) largest = c.n;
+      calls++; if (c.n >= 2) distinct.insert(case_hash(c)); if (c.n > largest) { largest = c.n; largest_case = case_text(c).substr(0, 240); }
       char b[64]; snprintf(b, sizeof b, "nmod16=%ld", c.n % 16); lab[b]++;
       lab["overlap=" + (c.ov < (int)op.ovnames.size() ? op.ovnames[c.ov] : std::to_string(c.ov))]++;
       snprintf(b, sizeof b, "align(dst,src0,src1)=%d%d%d", c.al[0], c.al[2], c.al[3]); lab[b]++;
@@ -295,7 +309,7 @@ int main(int argc, char **argv) {
       if (!oc.ok) { failed = true; bad = oc; badc = c; }
     } else {
       long nmax = op.nmax ? op.nmax : maxn; if (op.quad && !op.nmax) nmax = thorough ? 400 : 150;
-      long dense_hi = std::min(64L, nmax), reps = (long)((thorough ? 480 : 24) * scale), nlog = (long)((thorough ? 8000 : 400) * scale);
+      long dense_hi = std::min(64L, nmax), reps = (long)((thorough ? 2400 : 120) * scale), nlog = (long)((thorough ? 40000 : 2000) * scale);
       if (op.quad) { reps = std::max(2L, reps / 3); nlog = nlog / 8; }
       if (reps < 1) reps = 1;
       std::vector<long> sizes;
@@ -328,6 +342,7 @@ int main(int argc, char **argv) {
     out += ",\"missing_refs\":["; for (size_t i = 0; i < missing.size(); i++) out += std::string(i ? "," : "") + "\"" + missing[i] + "\""; out += "]";
     out += ",\"known_hits\":{"; { bool f2 = true; for (auto &kv : known_hits) { out += std::string(f2 ? "" : ",") + "\"" + kv.first + "\":" + std::to_string(kv.second); f2 = false; } } out += "}";
     out += ",\"labels\":{"; { bool f2 = true; for (auto &kv : lab) { out += std::string(f2 ? "" : ",") + "\"" + kv.first + "\":" + std::to_string(kv.second); f2 = false; } } out += "}";
+    out += ",\"largest_case\":\"" + jesc(largest_case) + "\"";
     out += ",\"samples\":["; for (size_t i = 0; i < samples.size(); i++) out += std::string(i ? "," : "") + "\"" + jesc(samples[i]) + "\""; out += "]";
     if (failed) {
       Opd o[NOPD]; op.layout(badc, o);
